@@ -99,13 +99,14 @@ def compare_ops(ctx, p, env, exp, ob, trees_of):
     return None
 
 
-def check_active(ctx):
-    shape = ((1, 0), (0, 1)) if ctx.tier == 'quick' else ((2, 0), (0, 1))
-    ctx.shape = shape
-    ex, paths, env = recov.run_recover(ctx, n_ks=2, shape=shape, symbolic_kinds=True)
+def check_active(ctx, shape=None, tag='', confirm=None, ghost=True, symbolic_kinds=True):
+    shape = shape or (((1, 0), (0, 1)) if ctx.tier == 'quick' else ((2, 0), (0, 1)))
+    if not tag:
+        ctx.shape = shape
+    ex, paths, env = recov.run_recover(ctx, n_ks=2, shape=shape, symbolic_kinds=symbolic_kinds)
     fns = ['db::<impl>::recover']
-    o1 = ctx.ob('replay/apply-rule', 'recover (active journal): a record is applied to the tree of the keyspace whose id it carries, unchanged, iff that keyspace\'s persisted seqno does not cover the batch; nothing else is written', fns)
-    o3 = ctx.ob('replay/complete', 'recover: Ok only after every batch of the journal was read', fns)
+    o1 = ctx.ob('replay/apply-rule' + tag, 'recover (active journal): a record is applied to the tree of the keyspace whose id it carries, unchanged, iff that keyspace\'s persisted seqno does not cover the batch; nothing else is written', fns)
+    o3 = ctx.ob('replay/complete' + tag, 'recover: Ok only after every batch of the journal was read', fns)
     b1, b3 = [], []
     inc = [p for p in paths if p.status in ('error', 'timeout', 'loop_bound')]
     if inc:
@@ -113,6 +114,9 @@ def check_active(ctx):
             o.status = 'undecided'; o.detail = f'executor: {inc[0].status} {inc[0].notes[-1:]}'
         return
     for p in paths:
+        if p.status == 'panic' and ctx.sat(p.pc, o3)[0] == z3.sat:
+            o3.reach += 1
+            b3.append((p, f'recovery of a well-formed journal panics ({"; ".join(str(n) for n in p.notes[-2:])[:160]})')); continue
         if p.status != 'returned' or ctx.sat(p.pc + [ret_is_ok(p)], o1)[0] != z3.sat:
             continue
         reads = [e.args['idx'] for e in p.events if e.kind == 'BATCH_READ']
@@ -126,8 +130,10 @@ def check_active(ctx):
         d = compare_ops(ctx, p, env, exp, o1, None)
         if d:
             b1.append((p, d))
-    finish(ctx, o1, b1, 'recover/replay-rule')
-    finish(ctx, o3, b3, 'recover/journal-not-fully-read')
+    finish(ctx, o1, b1, 'recover/replay-rule', confirm)
+    finish(ctx, o3, b3, 'recover/journal-not-fully-read', confirm)
+    if not ghost:
+        return
     o4 = ctx.ob('replay/not-after-flush', 'recover: a record that was flushed before (ghost mark: highest flushed seqno of its keyspace) is never applied again, even when a compaction '
                 'filter has since removed the newest items from the tables', fns)
     check_flushed_ghost(ctx, ex, paths, env, o4, 'recover/filter-removed-newest-item-replayed')
@@ -193,14 +199,14 @@ def check_flushed_ghost(ctx, ex, paths, env, ob, role):
         ctx.candidate(ob, role, f'{ob.id}: {bad[0][1]}', confirm=lambda: native_selfcompare(ctx, filtered_newest_programs()))
 
 
-def check_sealed(ctx, confirm=None, shape=None, tag=''):
+def check_sealed(ctx, confirm=None, shape=None, tag='', n_ks=2, symbolic_kinds=True):
     shape = shape or (((1, 0), (0, 1)) if ctx.tier == 'quick' else ((2, 0), (0, 1)))
     fns = ['recovery::recover_sealed_memtables']
     o1 = ctx.ob('sealed/apply-rule' + tag, 'recover_sealed_memtables: same apply rule, order and completeness for a sealed journal', fns)
     o2 = ctx.ob('sealed/memtables' + tag, 'recover_sealed_memtables: a keyspace\'s recovered memtable is sealed iff data was applied to it; the journal is re-registered with a watermark '
                 'for exactly those keyspaces, carrying the highest applied seqno', fns)
     try:
-        ex, paths, env = recov.run_recover(ctx, n_ks=2, shape=(), sealed_shape=shape, symbolic_kinds=True)
+        ex, paths, env = recov.run_recover(ctx, n_ks=n_ks, shape=(), sealed_shape=shape, symbolic_kinds=symbolic_kinds)
     except Exception as e:      # noqa
         for o in (o1, o2):
             o.status = 'undecided'; o.detail = f'executor: {e!r}'
@@ -212,6 +218,10 @@ def check_sealed(ctx, confirm=None, shape=None, tag=''):
             o.status = 'undecided'; o.detail = f'executor: {inc[0].status} {inc[0].notes[-1:]}'
         return
     for p in paths:
+        if p.status == 'panic' and ctx.sat(p.pc, o2)[0] == z3.sat:
+            # a well-formed sealed journal must never make recovery panic (the internal consistency assertion included)
+            o2.reach += 1
+            b2.append((p, f'recovery of a well-formed sealed journal panics ({"; ".join(str(n) for n in p.notes[-2:])[:160]})')); continue
         if p.status != 'returned' or ctx.sat(p.pc + [ret_is_ok(p)], o1)[0] != z3.sat:
             continue
         reads = [e.args['idx'] for e in p.events if e.kind == 'BATCH_READ']
@@ -274,6 +284,15 @@ def finish(ctx, ob, bad, role, confirm=None):
 
 
 # ------------------------------------------------------------------ native
+def half_flushed_batch_program(crash=False):
+    """a batch over two keyspaces of which only the one listed first (and, in a second round, only the one listed last) is flushed before the reopen / crash"""
+    A, B = 'a', 'b'
+    k1, k2, k3, k4, k5 = oracle.KEYS
+    R = [('crash',)] if crash else [('reopen',), ('check',)]
+    return [('ks', A), ('ks', B), ('batch', [('insert', A, k1, '31'), ('insert', B, k1, '41'), ('insert', A, k2, '32')]), ('rotate', A), ('flush',)] + R + \
+           [('batch', [('insert', A, k3, '33'), ('insert', B, k2, '42'), ('remove', A, k1)]), ('rotate', B), ('flush',)] + R + [('insert', B, k3, '43')] + R
+
+
 def reopen_programs(thorough=False):
     A, B = 'a', 'b'
     k1, k2, k3, k4, k5 = oracle.KEYS
@@ -296,6 +315,7 @@ def reopen_programs(thorough=False):
     P['ingest-into-nonempty-flushed'] = [('ks', A), ('insert', A, k1, '31'), ('rotate', A), ('flush',), ('insert', A, k2, '32'), ('ingest', A, [(k1, '3939'), (k3, '33')]), ('check',)] + R
     P['clear-flushed'] = [('ks', A), ('insert', A, k1, '31'), ('rotate', A), ('flush',), ('insert', A, k2, '32'), ('clear', A), ('check',)] + R + [('insert', A, k1, '35')] + R
     P['clear-two-ks-lagging'] = [('ks', A), ('ks', B), ('insert', A, k1, '31'), ('insert', B, k1, '41'), ('clear', A), ('insert', B, k2, '42'), ('rotate', B), ('flush',), ('insert', A, k2, '32')] + R + R
+    P['batch-half-flushed'] = half_flushed_batch_program()
     P['cycles-with-writes'] = [('ks', A), ('insert', A, k1, '31')] + R + [('insert', A, k2, '32'), ('remove', A, k1)] + R + [('rotate', A), ('flush',), ('insert', A, k1, '3133')] + R + \
                               [('major_compact', A), ('remove', A, k2)] + R + R
     P['sealed-not-flushed'] = [('ks', A), ('ks', B), ('insert', A, k1, '31'), ('insert', B, k1, '41'), ('rotate', A), ('insert', A, k2, '32'), ('insert', B, k2, '42')] + R + [('insert', A, k3, '33')] + R
@@ -382,12 +402,20 @@ def native_reopen(ctx):
     return last[0], last[1], last[2] + '; ' + d
 
 
+def check_two_item_batch(ctx, confirm=None):
+    """one batch of two items over two keyspaces (value kinds concrete): a decision taken for one item (skip, stop, cached verdict) must not leak to the other"""
+    check_active(ctx, shape=((2, 0),), tag='/two-item-batch', ghost=False, symbolic_kinds=False, confirm=confirm)
+    check_sealed(ctx, shape=((2, 0),), tag='/two-item-batch', symbolic_kinds=False, confirm=confirm)
+
+
 def run(ctx):
     check_active(ctx)
     check_sealed(ctx)
+    if ctx.tier == 'quick':
+        check_two_item_batch(ctx)
     # what a reopen can replay is what journal maintenance left on disk: the evict rule (decided for C10) is part of this property as well
     from . import c10
-    c10.check_maintenance(ctx, confirm=lambda: native_reopen(ctx))
+    c10.check_maintenance(ctx, confirm=lambda: native_reopen(ctx), with_reclaim=False)
     ctx.assumptions += [
         'E8: get_highest_persisted_seqno reports the maximum seqno over the tables of a tree; a table item with seqno s supersedes journal records with seqno <= s',
         'E2: among entries of one key the highest seqno wins (lsm-tree read path); the equality of content after replay follows from the apply rule + E2',
